@@ -15,7 +15,7 @@ EU_Targets == {<<EU_KA>>, <<EU_KB>>, <<EU_KC>>, <<EU_KA, EU_KA>>, <<EU_KA, EU_KB
 EU_XRefs == {EU_XRef(p) : p \in EU_Targets}
 
 \* C09: top-level a b c; a and b may be containers holding a value or a reference
-EU_Leaf9 == {EU_L("1")} \cup EU_XRefs
+EU_Leaf9 == {EU_L("1"), SD("list", NoVal, <<>>)} \cup EU_XRefs
 EU_Val9 == EU_Leaf9
            \cup {SD("dict", NoVal, <<<<EU_KA, x>>>>) : x \in EU_Leaf9}
            \cup {SD("dict", NoVal, <<<<EU_KA, EU_L("1")>>, <<EU_KB, x>>>>) : x \in EU_XRefs}
@@ -27,21 +27,27 @@ EU_C09_Docs == SetToSeq({SD("dict", NoVal, <<<<EU_KA, x>>, <<EU_KB, y>>, <<EU_KC
 EU_C09_DocsS == SetToSeq({SD("dict", NoVal, <<<<EU_KA, x>>, <<EU_KB, y>>>>) : x \in EU_Val9, y \in EU_Val9})
 
 \* C10: one to three side-effecting calls consumed by references, call arguments, list / mapping elements
-EU_Use == {EU_L("1"), EU_Call(<<>>), EU_XRef(<<EU_KA>>), EU_XRef(<<EU_KB>>), EU_XRef(<<EU_KC>>), EU_XRef(<<EU_KA, EU_KA>>)}
+EU_CallF(fn) == [SD("call", NoVal, <<>>) EXCEPT !.fn = fn, !.form = "tag"]
+EU_Use == {EU_L("1"), EU_Call(<<>>), EU_CallF("vmod.recnone"), EU_CallF("vmod.reclist"), EU_XRef(<<EU_KA>>), EU_XRef(<<EU_KB>>), EU_XRef(<<EU_KC>>), EU_XRef(<<EU_KA, EU_KA>>)}
 EU_Val10 == EU_Use
             \cup {EU_Call(<<<<EU_KA, x>>>>) : x \in EU_Use}
             \cup {SD("dict", NoVal, <<<<EU_KA, x>>>>) : x \in EU_Use}
+            \cup {SD("dict", NoVal, <<<<IKey(0), EU_L("1")>>, <<IKey(1), EU_XRef(<<EU_KA>>)>>>>)}      \* int keys
             \cup {SD("list", NoVal, <<<<IKey(0), x>>, <<IKey(1), y>>>>) : x \in {EU_Call(<<>>), EU_XRef(<<EU_KA>>)}, y \in {EU_L("1"), EU_XRef(<<EU_KB>>)}}
             \cup {EU_Bind(<<<<EU_KA, x>>>>) : x \in {EU_Call(<<>>), EU_XRef(<<EU_KA>>)}}
+\* (a mapping with a FLOAT key cannot take part in a deleting merge: the prune's path lookup rejects it with a
+\*  MergeError - finding F13, outside every property's stated domain; float keys appear in single-stage configs only)
+EU_Val10F == EU_Val10 \cup {SD("dict", NoVal, <<<<IKey(0), EU_L("1")>>, <<FKey("2.5"), EU_XRef(<<EU_KA>>)>>>>)}
 EU_C10_Docs == SetToSeq({SD("dict", NoVal, <<<<EU_KA, x>>, <<EU_KB, y>>, <<EU_KC, z>>>>)
                          : x \in EU_Val10, y \in EU_Val10, z \in EU_Use})
-EU_C10_DocsS == SetToSeq({SD("dict", NoVal, <<<<EU_KA, x>>, <<EU_KB, y>>>>) : x \in EU_Val10, y \in EU_Val10})
+EU_C10_DocsS == SetToSeq({SD("dict", NoVal, <<<<EU_KA, x>>, <<EU_KB, y>>>>) : x \in EU_Val10F, y \in EU_Val10F})
+EU_C10_DocsH == SetToSeq({SD("dict", NoVal, <<<<EU_KA, x>>, <<EU_KB, y>>>>) : x \in EU_Val10, y \in EU_Val10})
 \* later stages overwriting / deleting any subset of the dynamic nodes
 EU_DelKey == WithTag(SD("scalar", Atom("n", ""), <<>>), "del")
 EU_Over == {EU_L("2"), EU_DelKey, EU_Call(<<>>), SD("dict", NoVal, <<<<EU_KA, EU_L("2")>>>>), SD("list", NoVal, <<>>)}
 EU_C10_Later == {SD("dict", NoVal, <<<<EU_KA, x>>>>) : x \in EU_Over} \cup {SD("dict", NoVal, <<<<EU_KB, x>>>>) : x \in EU_Over}
                 \cup {SD("dict", NoVal, <<<<EU_KA, x>>, <<EU_KB, y>>>>) : x \in EU_Over, y \in EU_Over}
-EU_C10_Hist  == EU_C10_DocsS \o SetToSeq(EU_C10_Later)
-EU_C10_HistRange == << <<1, Len(EU_C10_DocsS)>>, <<Len(EU_C10_DocsS) + 1, Len(EU_C10_DocsS) + Cardinality(EU_C10_Later)>> >>
+EU_C10_Hist  == EU_C10_DocsH \o SetToSeq(EU_C10_Later)
+EU_C10_HistRange == << <<1, Len(EU_C10_DocsH)>>, <<Len(EU_C10_DocsH) + 1, Len(EU_C10_DocsH) + Cardinality(EU_C10_Later)>> >>
 
 =============================================================================
